@@ -27,7 +27,8 @@ Seeds == << Obj("circ", V("C1", <<>>)), Obj("circ", V("C2", <<>>)), Obj("circ", 
             Obj("gate", V("G1", <<>>)), Obj("gate", V("G2", <<>>)), Obj("gate", V("G3", <<>>)),
             Obj("pauli", V("T1", <<>>)), Obj("pauli", V("T2", <<>>)), Obj("pauli", V("S1", <<>>)), Obj("pauli", V("S2", <<>>)),
             Obj("meas", V("M1", <<>>)), Obj("dist", V("D1", <<>>)), Obj("dist", V("D2", <<>>)),
-            Obj("wf", V("W1", <<>>)), Obj("wf", V("W2", <<>>)) >>
+            Obj("wf", V("W1", <<>>)), Obj("wf", V("W2", <<>>)),
+            Obj("udist", V("D3", <<>>)) >>                  \* an UNnormalised histogram kept in a distribution object (normalize = False)
 \* name, argument kinds, result kind ("rep" = a report: nothing is added to the pool)
 Sig(n, a, r) == [n |-> n, a |-> a, r |-> r]
 OpSeq == <<
@@ -44,7 +45,9 @@ OpSeq == <<
   Sig("d_marginal", <<"dist">>, "dist"), Sig("d_mmd", <<"dist", "dist">>, "rep"), Sig("d_nll", <<"dist", "dist">>, "rep"),
   Sig("d_js", <<"dist", "dist">>, "rep"), Sig("d_save", <<"dist">>, "rep"),
   Sig("w_probs", <<"wf">>, "rep"), Sig("w_outcome", <<"wf">>, "rep"), Sig("w_bind", <<"wf">>, "wf"), Sig("w_sim", <<"circ", "wf">>, "wf"),
-  Sig("w_save", <<"wf">>, "rep") >>
+  Sig("w_save", <<"wf">>, "rep"),
+  \* a normalised distribution built from the dictionary of another distribution object
+  Sig("d_copy", <<"udist">>, "dist"), Sig("d_copy_n", <<"dist">>, "dist") >>
 OpAll == 1..Len(OpSeq)
 Ops == {OpSeq[i] : i \in OpSel}
 
@@ -75,7 +78,7 @@ Next == \/ \E sg \in Ops : \E args \in ArgChoices(sg) : Call(sg, args)
 ArgumentsUnchanged == [][\A i \in 1..Len(objs) : objs'[i] = objs[i]]_vars                \* every live object, receiver and arguments included
 SameCallTwiceSameResult == [][(ev'.rep /\ ev'.res # 0) => objs'[ev'.res].v = objs[ev.res].v]_vars
 ResultIsNew == [][ev'.res # 0 => (ev'.res = Len(objs) + 1 /\ Len(objs') = Len(objs) + 1)]_vars
-WellTyped == \A i \in 1..Len(objs) : objs[i].k \in {"circ", "gate", "pauli", "meas", "dist", "wf"}
+WellTyped == \A i \in 1..Len(objs) : objs[i].k \in {"circ", "gate", "pauli", "meas", "dist", "wf", "udist"}
 
 ObjsJ(os) == [i \in 1..Len(os) |-> os[i]]
 Emit == IF ~Emitting THEN TRUE ELSE
